@@ -123,6 +123,7 @@ func C02() int {
 			}
 		}
 	})
+	reportBatchAnomalies(c)
 	c.Set("reassigned_leaves_by_class", classSeen)
 	c.Set("flag_sets", flagNames(fsets))
 	c.Set("race_reports", s.RaceReports())
